@@ -481,6 +481,13 @@ class Sym:
                         and all(isinstance(a_, ast.Constant) and isinstance(a_.value, str) and "." not in a_.value for a_ in cv.args):
                     parts = tuple(("attr", pos[0], a_.value) for a_ in cv.args)
                     return parts[0] if len(parts) == 1 else ("tuple", parts)
+            # starmap(f, ((a, b), (c, d))) / map(f, (a, b)) over a literal display: the calls, one by one
+            if f in (("glob", "starmap"), ("attr", ("glob", "itertools"), "starmap")) and len(pos) == 2 and not kws \
+                    and pos[1][:1] in (("tuple",), ("list",)) and pos[1][1] and all(x[:1] == ("tuple",) for x in pos[1][1]):
+                return ("tuple", tuple(("call", pos[0], x[1], ()) for x in pos[1][1]))
+            if f == ("glob", "map") and len(pos) == 2 and not kws and pos[1][:1] in (("tuple",), ("list",)) and pos[1][1] \
+                    and not any(x[:1] == ("uop",) for x in pos[1][1]):
+                return ("tuple", tuple(("call", pos[0], (x,), ()) for x in pos[1][1]))
             # map(f, xs) is (f(x) for x in xs); attrgetter / itemgetter / list / tuple as f are spelled out
             if f == ("glob", "map") and len(pos) == 2 and not kws:
                 el = mk_elem(pos[1])
